@@ -178,7 +178,11 @@ SEnd(m, e) ==
 
 SStep(m, e) ==
   CASE e.e = "A" -> SApi(IF e.op \in {"sig_reg", "sig_unreg"} THEN [m EXCEPT !.sigBusy = @ \ {e.t}] ELSE m, e)
-    [] e.e = "SigApiB" -> [m EXCEPT !.sigBusy = @ \cup {e.t}]
+    (* an unregistration takes effect somewhere between the begin and the end of the call; the hand-over
+       of a pending exclusive delivery is therefore expected from the begin on (the departing interest's
+       own handler cannot run meanwhile: its thread is inside the call) *)
+    [] e.e = "SigApiB" -> LET m1 == [m EXCEPT !.sigBusy = @ \cup {e.t}] IN
+                          IF e.op = "unreg" /\ m1.sig[e.o].reg THEN SigUnreg(m1, e) ELSE m1
     (* SIGCHLD goes back to its default disposition (the last wait interest of the process is on its way
        out, whichever thread's call returns first): what was not reaped by then is no longer owed *)
     [] e.e = "Disp" -> IF e.sig = 17 /\ e.h = "dfl" THEN [m EXCEPT !.termOwed = {}] ELSE m
